@@ -209,8 +209,11 @@ def step (fixed : Bool) (s : State) : Choice → State
 
 def run (fixed : Bool) (s : State) (cs : List Choice) : State := cs.foldl (step fixed) s
 
-/-- which variant the code under test is (`Read` checks the close channel first) -/
-def codeFixed : Bool := false
+/-- which variant the code under test is: `true` since the repair
+    "fix: meek_lite Read fails once the connection is closed" (`Read` checks the close channel
+    first, as `Write` does); the released `Read` (`false`) is kept for the counterexample and
+    as a regression target. -/
+def codeFixed : Bool := true
 
 /-- what the worker still owes the server -/
 def pendingUp (s : State) : Bytes :=
